@@ -6,7 +6,7 @@ cd "$(dirname "$0")/.."
 SNAP=/tmp/thorough_repo_$$
 mkdir -p $SNAP && rsync -a --exclude .git --exclude '*.pyc' /repo/ $SNAP/
 export OVC_REPO_ROOT=$SNAP
-LIST="${@:-C11 C03 C14 C01 C04 C18 C20 C15 C13 C12 C19 C17 C07 C02 C05 C09 C10 C08 C06}"
+LIST="${@:-C11 C03 C14 C18 C20 C15 C16 C13 C12 C19 C17 C02 C01 C04 C05 C07 C09 C10 C08 C06}"
 for c in $LIST; do
   s=$(date +%s)
   bin/ovc check $c --tier thorough > /tmp/thorough_$c.log 2>&1; rc=$?
